@@ -161,7 +161,7 @@ pub fn probe_main(args: &[String]) -> i32 {
 fn catalogue_line(rng: &mut Rng) -> (Vec<String>, Option<String>) {
     let n = text::boundary_numeral(rng);
     let m = text::boundary_numeral(rng);
-    let t = rng.below(34);
+    let t = rng.below(37);
     let subs = |k: usize, v: &str| vec![v; k].join(",");
     let lines: Vec<String> = match t {
         0 => vec![format!("{} PRINT 1", n), "LIST".into(), "RUN".into()],
@@ -204,6 +204,28 @@ fn catalogue_line(rng: &mut Rng) -> (Vec<String>, Option<String>) {
         30 => vec![format!("10 PRINT {}", "1+".repeat(rng.usize(3000)) + "1"), "RUN".into()],
         31 => vec![format!("PRINT {}", "A".repeat(1 + rng.usize(5000))), format!("PRINT \"{}\"", "x".repeat(rng.usize(100_000)))],
         32 => vec![format!("{} {}", n, text::random_line(rng, 10)), "RUN".into(), "LIST".into()],
+        33..=35 => {
+            // immediate-mode commands followed by arguments (ranges, junk), on a stored program
+            let small = |rng: &mut Rng| rng.s(&["10", "20", "30", "5", "0", "25", "40"]).to_string();
+            let arg = |rng: &mut Rng| if rng.chance(1, 3) { text::boundary_numeral(rng) } else { small(rng) };
+            let mut v: Vec<String> = vec!["10 PRINT 1".into(), "20 PRINT 2 : STOP".into(), "30 PRINT 3".into()];
+            for _ in 0..1 + rng.usize(4) {
+                let cmd = rng.s(&["LIST", "list", "RUN", "CONT", "NEW", "TRACE", "NOTRACE", "STATS", "L I S T", "Run", "INTERNALS"]);
+                let (a, b) = (arg(rng), arg(rng));
+                v.push(match rng.below(9) {
+                    0 => format!("{} {}", cmd, a),
+                    1 => format!("{} {}-{}", cmd, a, b),
+                    2 => format!("{} {} - {}", cmd, a, b),
+                    3 => format!("{} {},{}", cmd, a, b),
+                    4 => format!("{} -{}", cmd, a),
+                    5 => format!("{} {}-", cmd, a),
+                    6 => format!("{}{}", cmd, a),
+                    7 => format!("{} {} {}", cmd, a, text::random_line(rng, 6)),
+                    _ => format!("{} {}", a, cmd),
+                });
+            }
+            v
+        }
         _ => vec![text::random_line(rng, 30), text::random_line(rng, 30)],
     };
     let reply = if t == 17 { Some(n.clone()) } else { None };
